@@ -134,6 +134,14 @@ pub struct RawParams {
     pub feed_gap_ms: u32,
     /// call report_scheduled_to_finish() after this many ms (0 = never)
     pub schedule_finish_after_ms: u32,
+    /// the time unit all the `_ms` fields above are expressed in, in microseconds (1000 = they really are milliseconds;
+    /// smaller units put the timeout and the item delays below one millisecond)
+    #[serde(default = "default_unit_us")]
+    pub unit_us: u32,
+}
+
+fn default_unit_us() -> u32 {
+    1000
 }
 
 fn raw_run<const I: usize>(p: &RawParams) {
@@ -146,9 +154,12 @@ fn raw_run<const I: usize>(p: &RawParams) {
     let stats_holder: Arc<Mutex<Option<Arc<dyn StreamExecutorStats + Send + Sync>>>> = Default::default();
     let stats_holder2 = Arc::clone(&stats_holder);
     let p2 = p.clone();
+    let unit_us = p.unit_us.max(1) as u64;
+    let units = move |n: u32| Duration::from_micros(n as u64 * unit_us);
+    let metric_origin = p.sched.metric_origin;
     rt.block_on(async move {
         let t0 = tokio::time::Instant::now();
-        let executor = if p2.timeout_ms > 0 { StreamExecutor::<I>::with_futures_timeout("raw", Duration::from_millis(p2.timeout_ms as u64)) } else { StreamExecutor::<I>::new("raw") };
+        let executor = if p2.timeout_ms > 0 { StreamExecutor::<I>::with_futures_timeout("raw", units(p2.timeout_ms)) } else { StreamExecutor::<I>::new("raw") };
         let exec_for_schedule = Arc::clone(&executor);
         let items = p2.items.clone();
         let gap = p2.feed_gap_ms;
@@ -160,7 +171,7 @@ fn raw_run<const I: usize>(p: &RawParams) {
                     return None;
                 }
                 if gap > 0 && i > 0 {
-                    tokio::time::sleep(Duration::from_millis(gap as u64)).await;
+                    tokio::time::sleep(units(gap)).await;
                 }
                 Some((i, i + 1))
             }
@@ -186,7 +197,7 @@ fn raw_run<const I: usize>(p: &RawParams) {
                     async move {
                         let guard = FlightGuard::start(&l, i as u32, t0);
                         if item.delay_ms > 0 {
-                            tokio::time::sleep(Duration::from_millis(item.delay_ms as u64)).await;
+                            tokio::time::sleep(units(item.delay_ms)).await;
                         }
                         guard.finish();
                         if item.fails {
@@ -216,7 +227,7 @@ fn raw_run<const I: usize>(p: &RawParams) {
                     async move {
                         let guard = FlightGuard::start(&l, i as u32, t0);
                         if item.delay_ms > 0 {
-                            tokio::time::sleep(Duration::from_millis(item.delay_ms as u64)).await;
+                            tokio::time::sleep(units(item.delay_ms)).await;
                         }
                         guard.finish();
                         i as u32
@@ -254,7 +265,7 @@ fn raw_run<const I: usize>(p: &RawParams) {
             }
         }
         if p2.schedule_finish_after_ms > 0 {
-            tokio::time::sleep(Duration::from_millis(p2.schedule_finish_after_ms as u64)).await;
+            tokio::time::sleep(units(p2.schedule_finish_after_ms)).await;
             exec_for_schedule.report_scheduled_to_finish();
             ledger2.lock().unwrap().notes.push("scheduled_to_finish".into());
         }
@@ -286,7 +297,7 @@ fn raw_run<const I: usize>(p: &RawParams) {
         got.sort_unstable();
         expected.sort_unstable();
         if got != expected {
-            ctx::report("C11", "timeout_cancellation", key("timeout_cancellation"), format!("item futures cancelled before completion: {:?}; items slower than the {} ms timeout: {:?}", got, p.timeout_ms, expected));
+            ctx::report("C11", "timeout_cancellation", key("timeout_cancellation"), format!("item futures cancelled before completion: {:?}; items slower than the timeout of {} x {} us: {:?}", got, p.timeout_ms, p.unit_us, expected));
         }
         if l.max_in_flight > p.limit as i64 {
             ctx::report("C11", "concurrency_limit", key("concurrency_limit"), format!("{} item futures were in progress at the same time with a concurrency limit of {}", l.max_in_flight, p.limit));
@@ -295,12 +306,17 @@ fn raw_run<const I: usize>(p: &RawParams) {
     // counters
     let stats = stats_holder.lock().unwrap().clone();
     if let Some(stats) = stats.as_ref() {
+        // the counters started at `metric_origin` (the "counter jump": as if that many items had already been counted)
         let (ok, _) = stats.ok_events_avg_future_duration().probe();
         let (timed_out, _) = stats.timed_out_events_avg_future_duration().probe();
         let (failed, _) = stats.failed_events_avg_future_duration().probe();
+        let (ok, timed_out, failed) = (ok.wrapping_sub(metric_origin) as u64, timed_out.wrapping_sub(metric_origin) as u64, failed.wrapping_sub(metric_origin) as u64);
         if metrics_on {
+            if metric_origin != 0 {
+                ctx::with_ctx(|c| *c.faults.entry("metric_counter_jump").or_insert(0) += 1);
+            }
             if (ok + timed_out + failed) as usize != n {
-                ctx::report("C11", "counters_sum", key("counters_sum"), format!("ok {} + timed_out {} + failed {} != {} items", ok, timed_out, failed, n));
+                ctx::report("C11", "counters_sum", key("counters_sum"), format!("ok {} + timed_out {} + failed {} != {} items (counters started at {})", ok, timed_out, failed, n, metric_origin));
             } else if timed_out as usize != expect_timed_out.len() || failed as usize != expect_failed.len() {
                 ctx::report("C11", "counters_split", key("counters_split"), format!("ok {} / timed_out {} / failed {} but the workload had {} timed-out and {} failed items of {}", ok, timed_out, failed, expect_timed_out.len(), expect_failed.len(), n));
             }
@@ -366,8 +382,15 @@ impl Scenario for ExecRaw {
         let exec = *rng.pick(&EXEC_KINDS);
         let timeout_ms = if exec.is_future() && rng.chance(1, 2) { 10 + rng.below(91) as u32 } else { 0 };
         let max_items = if tier == Tier::Thorough { 24 } else { 16 };
+        let mut sched = SchedSpec::draw(rng);
+        // "counter jump": the metric counters start as if many items had been counted before (never next to the
+        // documented reset at u32::MAX)
+        if rng.chance(1, 4) {
+            let base: u32 = *rng.pick(&[1 << 8, 1 << 16, 1 << 23, 1 << 24, 1 << 25, 1 << 31, 1_000_000, 3_000_000_000]);
+            sched.metric_origin = base - rng.below(max_items + 4) as u32;
+        }
         RawParams {
-            sched: SchedSpec::draw(rng),
+            sched,
             exec,
             instruments: rng.below(4) as u8,
             limit: 1 + rng.below(8) as u32,
@@ -375,6 +398,7 @@ impl Scenario for ExecRaw {
             items: draw_items(rng, exec, timeout_ms, max_items),
             feed_gap_ms: *rng.pick(&[0, 0, 1, 7]),
             schedule_finish_after_ms: if rng.chance(1, 4) { 1 + rng.below(60) as u32 } else { 0 },
+            unit_us: *rng.pick(&[1000, 1000, 1000, 250, 37, 10, 1]),
         }
     }
     fn sched<'a>(&self, p: &'a RawParams) -> &'a SchedSpec {
@@ -429,6 +453,16 @@ impl Scenario for ExecRaw {
             q.limit -= 1;
             out.push(q);
         }
+        if p.unit_us != 1000 {
+            let mut q = p.clone();
+            q.unit_us = 1000;
+            out.push(q);
+        }
+        if p.sched.metric_origin != 0 {
+            let mut q = p.clone();
+            q.sched.metric_origin = 0;
+            out.push(q);
+        }
         out
     }
     fn size(&self, p: &RawParams) -> u64 {
@@ -439,7 +473,7 @@ impl Scenario for ExecRaw {
     }
     fn distinct_key(&self, p: &RawParams, _out: &RunOut) -> u64 {
         let mut h = 0xcbf29ce484222325u64;
-        let s = serde_json::to_string(&(p.exec, p.instruments, p.limit, p.timeout_ms, &p.items, p.feed_gap_ms, p.schedule_finish_after_ms)).unwrap_or_default();
+        let s = serde_json::to_string(&(p.exec, p.instruments, p.limit, p.timeout_ms, &p.items, p.feed_gap_ms, p.schedule_finish_after_ms, p.unit_us, p.sched.metric_origin)).unwrap_or_default();
         for b in s.bytes() {
             h = (h ^ b as u64).wrapping_mul(0x100000001b3);
         }
@@ -461,7 +495,7 @@ impl Scenario for ExecRaw {
 // uni_exec / multi_exec: whole Uni / Multi objects with executors; graceful close (C06) and life cycle (C12)
 // =============================================================================================================
 
-use crate::chan::Kind;
+use crate::chan::{self, Kind};
 use reactive_mutiny::multi::Multi;
 use reactive_mutiny::uni::Uni;
 
@@ -777,7 +811,7 @@ where
     let (ledgers2, verdict2, accepted2, cancelled2, p2) = (ledgers.clone(), Arc::clone(&verdict), Arc::clone(&accepted), Arc::clone(&cancelled_at), p.clone());
     rt.block_on(async move {
         let t0 = tokio::time::Instant::now();
-        let multi = Arc::new(Multi::<u32, C, I, D>::new(format!("verif-multi-{:?}", std::thread::current().id()).replace(['(', ')'], "")));
+        let multi = Arc::new(Multi::<u32, C, I, D>::new(chan::scratch_log_name("multi")));
         let timeout = Duration::from_millis(p2.timeout_ms as u64);
         for li in 0..p2.listeners {
             let name = format!("listener{}", li);
@@ -1106,7 +1140,7 @@ impl Scenario for ObjExec {
         let p2 = p.clone();
         let (out, _) = run_passive(&p.sched, trace, move || obj_run(&p2));
         if p.kind == Kind::MultiMmapLog {
-            let _ = std::fs::remove_file(format!("/tmp/verif-multi-{:?}.mmap", std::thread::current().id()).replace(['(', ')'], ""));
+            let _ = std::fs::remove_file(chan::mmap_log_path(&chan::scratch_log_name("multi")));
         }
         out
     }
@@ -1183,7 +1217,7 @@ impl Scenario for ObjExec {
     }
     fn distinct_key(&self, p: &ObjParams, _out: &RunOut) -> u64 {
         let mut q = p.clone();
-        q.sched = SchedSpec { policy: crate::ctx::Policy::Uniform, seed: 0, script: vec![], weak_cas: 0, stall: 0, starvation: 0, step_cap: 0, op_step_bound: 0, origin: 0 };
+        q.sched = SchedSpec { policy: crate::ctx::Policy::Uniform, seed: 0, script: vec![], weak_cas: 0, stall: 0, starvation: 0, step_cap: 0, op_step_bound: 0, origin: 0, metric_origin: 0 };
         let mut h = 0xcbf29ce484222325u64;
         for b in serde_json::to_string(&q).unwrap_or_default().bytes() {
             h = (h ^ b as u64).wrapping_mul(0x100000001b3);
